@@ -63,8 +63,10 @@ CONSTANTS
                                     \* (MC_Process_hyp_rhscache.cfg: breaks C17_ReparseClean)
     Hyp_SteadyOneShot,              \* TRUE: hypothetical "the steady-state option is consumed by the first solve"
                                     \* (MC_Process_hyp_steady.cfg: breaks C17_HistoryIndependent / C17_ResolveIdempotent)
-    Hyp_SettingsSurviveReparse      \* TRUE: hypothetical "MaxTime / Err_Tolerance of the previous block stand unless the new
+    Hyp_SettingsSurviveReparse,     \* TRUE: hypothetical "MaxTime / Err_Tolerance of the previous block stand unless the new
                                     \* block has a line for them" (MC_Process_hyp_settings.cfg: breaks C17_ReparseClean)
+    Hyp_TraceNeedsStepLog           \* TRUE: hypothetical "the step trace is only collected while a 'step' log is registered"
+                                    \* (MC_Process_hyp_steplog.cfg: breaks C17_HistoryIndependent)
 
 Holders == Solvers \cup Models      \* everything that owns an EquationSolver
 
@@ -75,6 +77,14 @@ NoFunc   == "none"
 NoSeries == [keys |-> {}, full |-> TRUE, ok |-> TRUE, body |-> NoFunc, own |-> NoFunc, eqs |-> NoBlock,
              ss |-> FALSE, want |-> FALSE, tol |-> "default", hz |-> 0]
 NoSettings == [tol |-> "default", hz |-> 0]          \* what a new parser holds
+NoStepInfo == [traced |-> FALSE, fresh |-> FALSE]
+
+(* The series GROUPS a solver reports besides the main one: the step trace (TimeSeriesStepTrace, the sweeps of  *)
+(* the traced period) and the initial steady-state run.  traced: the last solve iterated its traced period;      *)
+(* fresh: the step group then holds the trace of THAT solve.  Whether a 'step' log is registered in the          *)
+(* process-wide Logger must not matter.                                                                          *)
+StepInfoOp(traced, stepLogRegistered) ==
+    [traced |-> traced, fresh |-> traced /\ (~Hyp_TraceNeedsStepLog \/ stepLogRegistered)]
 
 ----------------------------------------------------------------------------
 (* Logger *)
@@ -173,12 +183,12 @@ SolveOp(b, vl, tr, fn, own, rf, ss, want, sg) ==
 VARIABLES nextId, logs,
           mstate, decl, result,
           block, varList, series, solved, func, reg, rhsFrom, steady, wantSteady, setg, nK, parses,
-          traceStep,
+          traceStep, stepInfo,
           hist
 
 mvars == << mstate, decl, result >>
 svars == << block, varList, series, solved, func, reg, rhsFrom, steady, wantSteady, setg, nK, parses >>
-vars  == << nextId, logs, mvars, svars, traceStep, hist >>
+vars  == << nextId, logs, mvars, svars, traceStep, stepInfo, hist >>
 
 Init ==
     /\ nextId = 0
@@ -199,6 +209,7 @@ Init ==
     /\ nK = [s \in Solvers |-> 0]
     /\ parses = [s \in Solvers |-> 0]
     /\ traceStep = [x \in Holders |-> 0]
+    /\ stepInfo = [x \in Holders |-> NoStepInfo]
     /\ hist = << >>
 
 Note(a, x, b, k) == /\ Len(hist) < MaxHist
@@ -210,7 +221,7 @@ NewModel(m) ==
     /\ nextId' = NewBase(m, nextId) + Shape[m].newIds
     /\ logs' = Touch(logs, "log")                 \* 'EconomicObject Created'
     /\ Note("NewModel", m, "", 0)
-    /\ UNCHANGED << decl, result, svars, traceStep >>
+    /\ UNCHANGED << decl, result, svars, traceStep, stepInfo >>
 
 DeclareHead(m) ==
     /\ mstate[m] = "new"
@@ -219,7 +230,7 @@ DeclareHead(m) ==
     /\ nextId' = nextId + HeadIds(m)
     /\ logs' = Touch(logs, "log")
     /\ Note("DeclareHead", m, "", 0)
-    /\ UNCHANGED << result, svars, traceStep >>
+    /\ UNCHANGED << result, svars, traceStep, stepInfo >>
 
 DeclareRest(m) ==
     /\ mstate[m] = "head"
@@ -228,7 +239,7 @@ DeclareRest(m) ==
     /\ nextId' = nextId + RestIds(m)
     /\ logs' = Touch(logs, "log")
     /\ Note("DeclareRest", m, "", 0)
-    /\ UNCHANGED << result, svars, traceStep >>
+    /\ UNCHANGED << result, svars, traceStep, stepInfo >>
 
 Main(m, lg) ==
     /\ mstate[m] = "declared"
@@ -236,17 +247,18 @@ Main(m, lg) ==
     /\ result' = [result EXCEPT ![m] = MainOp(m, decl[m])]
     /\ logs' = CleanupOp(logs)                    \* main() always ends with Logger.cleanup()
     /\ Note("Main", m, "", IF lg THEN 1 ELSE 0)
+    /\ stepInfo' = [stepInfo EXCEPT ![m] = StepInfoOp(traceStep[m] \in 1..Shape[m].horizon, lg \/ logs["step"] # "none")]
     /\ UNCHANGED << nextId, decl, svars, traceStep >>
 
 RegisterLogs ==
     /\ logs' = RegisterLogsOp(logs)
     /\ Note("RegisterLogs", "", "", 0)
-    /\ UNCHANGED << nextId, mvars, svars, traceStep >>
+    /\ UNCHANGED << nextId, mvars, svars, traceStep, stepInfo >>
 
 Cleanup ==
     /\ logs' = CleanupOp(logs)
     /\ Note("Cleanup", "", "", 0)
-    /\ UNCHANGED << nextId, mvars, svars, traceStep >>
+    /\ UNCHANGED << nextId, mvars, svars, traceStep, stepInfo >>
 
 Reparse(s, b) ==
     /\ b # block[s]
@@ -258,21 +270,21 @@ Reparse(s, b) ==
     /\ nK' = [nK EXCEPT ![s] = 0]                                   \* new parser object
     /\ parses' = [parses EXCEPT ![s] = @ + 1]
     /\ Note("Reparse", s, b, 0)
-    /\ UNCHANGED << nextId, logs, mvars, series, func, reg, steady, wantSteady, traceStep >>   \* Functions and options survive a re-parse
+    /\ UNCHANGED << nextId, logs, mvars, series, func, reg, steady, wantSteady, traceStep, stepInfo >>   \* Functions and options survive a re-parse
 
 AddFunction(s, f) ==
     /\ f # reg[s]
     /\ reg' = [reg EXCEPT ![s] = f]
     /\ func' = IF Hyp_SharedFunctions THEN [t \in Solvers |-> f] ELSE [func EXCEPT ![s] = f]
     /\ Note("AddFunction", s, f, 0)
-    /\ UNCHANGED << nextId, logs, mvars, block, varList, series, solved, rhsFrom, steady, wantSteady, setg, nK, parses, traceStep >>
+    /\ UNCHANGED << nextId, logs, mvars, block, varList, series, solved, rhsFrom, steady, wantSteady, setg, nK, parses, traceStep, stepInfo >>
 
 SetSteady(s, on) ==
     /\ on # wantSteady[s]
     /\ wantSteady' = [wantSteady EXCEPT ![s] = on]
     /\ steady' = [steady EXCEPT ![s] = on]
     /\ Note("SetSteady", s, "", IF on THEN 1 ELSE 0)
-    /\ UNCHANGED << nextId, logs, mvars, block, varList, series, solved, func, reg, rhsFrom, setg, nK, parses, traceStep >>
+    /\ UNCHANGED << nextId, logs, mvars, block, varList, series, solved, func, reg, rhsFrom, setg, nK, parses, traceStep, stepInfo >>
 
 DoSolve(s, name) ==
     LET r == SolveOp(block[s], varList[s], traceStep[s], func[s], reg[s], rhsFrom[s], steady[s], wantSteady[s], setg[s])
@@ -286,6 +298,7 @@ DoSolve(s, name) ==
                   IN IF traceStep[s] \in 1..r.started THEN Touch(l1, "step") ELSE l1     \* the traced period was begun
        /\ Note(name, s, block[s], 0)
        /\ rhsFrom' = [rhsFrom EXCEPT ![s] = r.series.eqs]
+       /\ stepInfo' = [stepInfo EXCEPT ![s] = StepInfoOp(r.series.ok /\ traceStep[s] \in 1..setg[s].hz, logs["step"] # "none")]
        /\ UNCHANGED << nextId, mvars, block, func, reg, wantSteady, setg, parses, traceStep >>
 
 Solve(s)      == block[s] # NoBlock /\ ~solved[s] /\ DoSolve(s, "Solve")
@@ -296,7 +309,7 @@ SetTrace(x, k) ==
     /\ x \in Models => mstate[x] \in {"new", "head", "declared"}
     /\ traceStep' = [traceStep EXCEPT ![x] = k]
     /\ Note("SetTrace", x, "", k)
-    /\ UNCHANGED << nextId, logs, mvars, svars >>
+    /\ UNCHANGED << nextId, logs, mvars, svars, stepInfo >>
 
 Next ==
     \/ \E m \in Models : NewModel(m) \/ DeclareHead(m) \/ DeclareRest(m) \/ Main(m, TRUE) \/ Main(m, FALSE)
@@ -312,6 +325,7 @@ Spec == Init /\ [][Next]_vars
 (* C17 *)
 C17_HistoryIndependent ==
     /\ \A m \in Models : mstate[m] = "built" => result[m] = Expected(m)
+    /\ \A x \in Holders : stepInfo[x].traced => stepInfo[x].fresh      \* the step group is the trace of the traced solve
     /\ \A s \in Solvers : (/\ solved[s] /\ series[s].keys = SeriesKeys(block[s])
                             /\ series[s].hz = BlockInfo[block[s]].horizon /\ series[s].tol = BlockInfo[block[s]].tol) =>
           /\ series[s].body = series[s].own            \* evaluated with what this solver registered itself
